@@ -92,7 +92,22 @@ func gen(r *vh.Rand, tier string, n int, emit func(vh.Case)) {
 				fc := vh.Pick(cr, []int{0, 0, 1, 2, 5})
 				c.Ops = append(c.Ops, fmt.Sprintf("fetch %d %d %d %s", root, lim, fc, h))
 			} else {
-				c.Ops = append(c.Ops, fmt.Sprintf("walk %d %d %d %d %d %s", root, lim, conc, b01(cr.Chance(1, 4)), b01(cr.Chance(1, 2)), h))
+				prov := "0"
+				if cr.Chance(1, 2) {
+					prov = "1"
+					if cr.Chance(1, 2) { // the provider fails for some nodes (leaves and interior ones)
+						var fs []string
+						for j := 0; j < nn; j++ {
+							if cr.Chance(1, 3) {
+								fs = append(fs, strconv.Itoa(j))
+							}
+						}
+						if len(fs) > 0 {
+							prov = "1:" + strings.Join(fs, ",")
+						}
+					}
+				}
+				c.Ops = append(c.Ops, fmt.Sprintf("walk %d %d %d %d %s %s", root, lim, conc, b01(cr.Chance(1, 4)), prov, h))
 			}
 		}
 		emit(c)
@@ -129,6 +144,8 @@ func errClass(err error) string {
 		return "nil"
 	case errors.Is(err, errCustom):
 		return "cu"
+	case errors.Is(err, errProvide):
+		return "pv" // a provider error must never be returned by a walk
 	case format.IsNotFound(err):
 		return "nf"
 	default:
@@ -202,22 +219,31 @@ type recorder struct {
 	prov    []int
 }
 
+// fakeProvider records every StartProviding call and fails for the scripted CIDs (leaves and interior
+// nodes alike): the walks must only log such a failure.
 type fakeProvider struct {
 	rec   *recorder
 	idxOf map[string]int
+	fail  map[int]bool
 }
+
+var errProvide = errors.New("c12: provide queue full")
 
 func (p *fakeProvider) StartProviding(force bool, keys ...mh.Multihash) error {
 	p.rec.mu.Lock()
 	defer p.rec.mu.Unlock()
+	var err error
 	for _, k := range keys {
 		i, ok := p.idxOf[string(k)]
 		if !ok {
 			i = -1
 		}
 		p.rec.prov = append(p.rec.prov, i)
+		if p.fail[i] {
+			err = errProvide
+		}
 	}
-	return nil
+	return err
 }
 
 func buildOpts(hs []string, rec *recorder, idx func(cid.Cid) int) []merkledag.WalkOption {
@@ -321,7 +347,14 @@ func exec(c vh.Case, o *vh.Out) {
 			o.Emit("ok")
 		case "walk":
 			root, lim, conc := vh.Atoi(f[1]), vh.Atoi(f[2]), vh.Atoi(f[3])
-			skip, prov, hs := f[4] == "1", f[5] == "1", splitHs(f[6])
+			skip, prov, hs := f[4] == "1", strings.HasPrefix(f[5], "1"), splitHs(f[6])
+			provFail := map[int]bool{}
+			if i := strings.IndexByte(f[5], ':'); i >= 0 {
+				for _, t := range strings.Split(f[5][i+1:], ",") {
+					provFail[vh.Atoi(t)] = true
+				}
+				o.Kind("provider-fails")
+			}
 			idxOf := map[string]int{}
 			mhOf := map[string]int{}
 			for i := 0; i <= len(nodes)+64; i++ {
@@ -375,7 +408,7 @@ func exec(c vh.Case, o *vh.Out) {
 				o.Kind("skiproot")
 			}
 			if prov {
-				opts = append(opts, merkledag.WithProvider(&fakeProvider{rec: rec, idxOf: mhOf}))
+				opts = append(opts, merkledag.WithProvider(&fakeProvider{rec: rec, idxOf: mhOf, fail: provFail}))
 				o.Kind("provider")
 			}
 			if conc != 1 {
